@@ -57,7 +57,11 @@ RULE = ('rotation cases = (ns, we, dt) pairs: gen.record classes, amplitudes 1e-
         '1e3..1e12 x the rest, Nyquist + noise, single changed sample (rotation components and cluster bases); awkward time '
         'steps (gen.awkward_dt) with windows at whole samples; clusters of 1, 5, 6, 7, 8, 12 and 16 signals with the master '
         'mostly not at index 0; warm members, deep-copied clusters processed the same way, members of aligned clusters and '
-        'signals derived by combine_at_angle used as rotation components and corrected in place.')
+        'signals derived by combine_at_angle used as rotation components and corrected in place. Wave 5: every case also scans '
+        'a named ARRAY-valued attribute (values, velocity, displacement, fa_spectrum, fa_spectrum_abs, s_a, s_v, s_d; points '
+        '1..5, keyword and positional) judged row by row; every ninth rotation case and every eighth cluster case uses '
+        'special but valid scales (gen.special_scale / amplitudes 1e+-165..1e+-250: uniformly tiny or huge, 1e-150 vs 1e150 '
+        'inside one record, ripple on a large baseline, counts above 2**24) in float64 / list containers.')
 ASSUMPTIONS = [
     'NaN-free real records; both components have the same length and dt',
     '|theta| <= 3600 degrees (the degree->radian rounding stays far below the 1e-12 relative allowance); a theta handed over '
@@ -79,6 +83,12 @@ ASSUMPTIONS = [
     'tolerances are local: rotation per sample (|ns_i|+|we_i|), the signed-sample measure at its own sample, section '
     'averages relative to the largest magnitude inside the section window plus the applied shift, constancy of the shift '
     'sample by sample; valid for amplitudes 1e-12..1e12 (squares stay far from the subnormal range) and |theta| <= 3600',
+    'extreme scales: rotation, the linear measures and same_start are judged up to 1e+-250 (nice dt, so that integrals stay '
+    'normal doubles); energy-type measures (Arias, cube mean) are not scanned there (their squares legitimately under/'
+    'overflow); the lag search of time_match is a sum of SQUARED residuals, so clusters that go through time_match keep '
+    'amplitudes within 1e-140..1e140; every tolerance is relative (no absolute floor)',
+    'array-valued attributes: response spectra rows are scanned with dt in {0.005..0.1} and judged with rtol 1e-6 (their '
+    'own conditioning belongs to C01/C03); a callable returning a series still contributes its last value',
     'a Cluster of one signal is judged for same_start only (time_match needs two signals: probed, counted, not judged)',
     'the index convention of the section window (int(start/dt), int(end/dt)+1) is not judged here: same_start and the '
     'read-back use the same public get_section_average, so only their agreement is decided',
@@ -326,6 +336,35 @@ def build_measures(eqsig):
     }
 
 
+ENERGY_MEASURES = ('arias_intensity', 'f:calc_arias-series-last', 'f:cube-mean')     # squares / cubes of the record
+APARAMS = ['velocity', 's_a', 'values', 'fa_spectrum', 'displacement', 's_v', 'fa_spectrum_abs', 's_d']   # array-valued
+
+
+def build_array_measures():
+    """Named AccSignal attributes that are ARRAYS: the scan returns one row per angle. ascale(A, dt, ref) is the local scale
+    (A = |ns|+|we| per sample, ref = expected rows)."""
+    rowmax = lambda A, dt, ref: np.max(np.abs(ref), axis=1, keepdims=True) if ref.size else 0.0
+    return {
+        'a:values': dict(parameter='values', parity='odd', array=True, rtol=RTOL_MEASURE, ascale=lambda A, dt, ref: A[None, :]),
+        'a:velocity': dict(parameter='velocity', parity='odd', array=True, rtol=RTOL_MEASURE,
+                           ascale=lambda A, dt, ref: (dt * np.cumsum(A))[None, :]),
+        'a:displacement': dict(parameter='displacement', parity='odd', array=True, rtol=RTOL_MEASURE,
+                               ascale=lambda A, dt, ref: (dt * dt * np.cumsum(np.cumsum(A)))[None, :]),
+        'a:fa_spectrum': dict(parameter='fa_spectrum', parity='odd', array=True, rtol=RTOL_MEASURE, ascale=rowmax),
+        'a:fa_spectrum_abs': dict(parameter='fa_spectrum_abs', parity='even', array=True, rtol=RTOL_MEASURE, ascale=rowmax),
+        'a:s_a': dict(parameter='s_a', parity='even', array=True, rtol=1e-6, ascale=rowmax),
+        'a:s_v': dict(parameter='s_v', parity='even', array=True, rtol=1e-6, ascale=rowmax),
+        'a:s_d': dict(parameter='s_d', parity='even', array=True, rtol=1e-6, ascale=rowmax),
+    }
+
+
+AMEASURES = build_array_measures()
+
+
+def measure_entry(key):
+    return AMEASURES[key] if key in AMEASURES else MEASURES[key]
+
+
 def _measure_of(eqsig, combo, dt, parameter, func):
     """The measure of one (oracle) combination, per the statement; monitors are paused by the caller."""
     if parameter == 'arias_intensity':
@@ -342,6 +381,10 @@ def _measure_of(eqsig, combo, dt, parameter, func):
 def _lookup_measure(parameter, func):
     if MEASURES is None:
         return None
+    if parameter is not None:
+        for k, m in AMEASURES.items():
+            if m['parameter'] == parameter:
+                return m
     for k, m in MEASURES.items():
         if parameter is not None and m.get('parameter') == parameter:
             return m
@@ -472,13 +515,40 @@ def _post_scan(args, kwargs, result, pre):
     with attach.paused():
         for th in ref_deg:
             refs.append(_measure_of(eqsig, O.combine(al, bl, th), dt, parameter, func))
+    m = _lookup_measure(parameter, func)
+    if parameter is not None and parameter != 'arias_intensity' and any(hasattr(r, '__len__') for r in refs):
+        # an ARRAY-valued attribute: one row per angle, each row == the attribute of that combination
+        try:
+            ref_arr = np.array([np.asarray(r) for r in refs])
+            complex_ok = ref_arr.dtype.kind == 'c' or pvalues.dtype.kind != 'c'
+            rt = m['rtol'] if m is not None and m.get('array') else RTOL_MEASURE
+            if m is not None and m.get('array'):
+                sc_arr = m['ascale'](np.abs(a) + np.abs(b), dt, ref_arr)
+            else:
+                sc_arr = np.max(np.abs(ref_arr), axis=1, keepdims=True) if ref_arr.size else 0.0
+            ok_arr = pvalues.shape == ref_arr.shape and complex_ok and pvalues.dtype.kind in 'fciu'
+            worst_txt = 'shape %s dtype %s, expected shape %s' % (pvalues.shape, pvalues.dtype, ref_arr.shape)
+            if ok_arr and ref_arr.size:
+                err = np.abs(pvalues - ref_arr)
+                err = np.where(np.isfinite(err), err, np.inf)
+                excess = err - rt * np.broadcast_to(sc_arr, err.shape)
+                j = np.unravel_index(int(np.argmax(excess)), err.shape)
+                ok_arr = bool(excess[j] <= 0)
+                worst_txt = 'at %s got %r expected %r (|diff| %.3g > %.3g)' % (j, pvalues[j], ref_arr[j], err[j],
+                                                                               float(rt * np.broadcast_to(sc_arr, err.shape)[j]))
+        except Exception as e:
+            ok_arr, worst_txt = False, 'cannot compare: %r' % (e,)
+        ctx.check(ok_arr, 'scan.array-values==attribute(combination)',
+                  lambda: wit(got_shape=list(pvalues.shape), expected_shape=list(np.shape(refs))),
+                  'compute_rotated(offset=%r, points=%d, parameter=%r): %s' % (off, points, parameter, worst_txt))
+        _check_purity(ctx, ns, we, pre, 'compute_rotated')
+        return
     try:
         refs = np.array([float(r) for r in refs])
         got = np.array([float(v) for v in pvalues.tolist()]) if pvalues.ndim == 1 else None
     except Exception:
         ctx.observe('compute_rotated.non-scalar-measure')
         return
-    m = _lookup_measure(parameter, func)
     if m is not None:
         scale = m['scale'](np.abs(a) + np.abs(b), dt)
     else:
@@ -672,6 +742,36 @@ def _wide_dt(rng):
     return gen.dt(rng)
 
 
+LINEAR_SENSITIVE = ['f:signed-max', 'f:cumsum-series-last', 'f:signed-sample', 'f:velocity-series-last', 'f:signed-min',
+                    'f:cumsum-list-last', 'f:displacement-series-last']
+EXTREME_FORMS = ['f64', 'f64', 'list-float', 'tuple-float', 'noncontig', 'reversed-view', 'readonly']
+
+
+def clamp_scale(x, lo, hi):
+    """Rescale x so that its largest magnitude lies in [lo, hi] (every value stays a finite double)."""
+    x = np.asarray(x, dtype=float)
+    m = float(np.max(np.abs(x))) if x.size else 0.0
+    if m == 0 or not np.isfinite(m):
+        return x
+    if m < lo:
+        return x * (lo / m)
+    if m > hi:
+        return x * (hi / m)
+    return x
+
+
+def extreme_vector(rng, n, lim=250):
+    """A record at a numerically special but valid scale: uniformly tiny / huge (1e-lim..1e+lim), extreme dynamic range inside
+    the record, small ripple on a large baseline, integer counts above 2**24 (gen.special_scale), or gen.record amplitudes
+    1e+-165..1e+-220. Linear operations stay exact in relative terms; squares and products under/overflow."""
+    x, cls = gen.record(rng, n, allow_const=False)
+    if rng.random() < 0.6:
+        y, suffix = gen.special_scale(rng, x)
+        return clamp_scale(y, 10.0 ** (-lim), 10.0 ** lim), cls + suffix
+    e = float(rng.choice([-1.0, 1.0])) * rng.uniform(min(165, lim - 30), min(220, lim))
+    return clamp_scale(x, 1e-3, 1e3) * 10.0 ** e, cls + '/extreme-scale'
+
+
 EXTRA_CLASSES = ['ramp+noise', 'pure-ramp', 'monotone', 'one-sided', 'tail-heavy', 'spike', 'nyquist+noise',
                  'single-changed-sample']
 
@@ -763,9 +863,21 @@ def make_rotation_case(rng, k):
     n = LONG_N + int(rng.integers(0, 3)) if long_case else int(ROT_LENGTHS[int(rng.integers(len(ROT_LENGTHS)))])
     forms = [VEC_FORMS[int(rng.integers(len(VEC_FORMS)))] for _ in range(2)]
     edge = [None, None, None, 'first', 'last'][int(rng.integers(5))]
-    ns, c1 = draw_vector(rng, n, forms[0], edge)
-    we, c2 = draw_vector(rng, n, forms[1], None)
-    dt = _wide_dt(rng)
+    extreme = (k % 9 == 4) and not long_case and n >= 2
+    aparam = None if long_case else 'a:' + APARAMS[k % len(APARAMS)]
+    if extreme and aparam.startswith('a:s_'):
+        aparam = 'a:velocity'
+    if extreme:      # extreme but valid scales: float64 / list containers only, one or both components
+        forms = [EXTREME_FORMS[int(rng.integers(len(EXTREME_FORMS)))] for _ in range(2)]
+        ns, c1 = extreme_vector(rng, n)
+        we, c2 = extreme_vector(rng, n) if rng.random() < 0.7 else draw_vector(rng, n, forms[1], None)
+        dt = gen.dt(rng, 'nice')
+    else:
+        ns, c1 = draw_vector(rng, n, forms[0], edge)
+        we, c2 = draw_vector(rng, n, forms[1], None)
+        dt = _wide_dt(rng)
+    if aparam is not None and aparam.startswith('a:s_'):       # response spectra: keep T/dt inside the range of their own checks
+        dt = float(rng.choice([0.005, 0.01, 0.02, 0.05, 0.1]))
     same_object = (not long_case) and rng.random() < 0.06
     twin = (not same_object) and rng.random() < 0.1
     if same_object:
@@ -790,6 +902,9 @@ def make_rotation_case(rng, k):
     mkeys = sorted(MEASURES)
     okind = OFFSET_KINDS[k % len(OFFSET_KINDS)]
     mkey = mkeys[k % len(mkeys)]
+    if extreme and mkey in ENERGY_MEASURES:       # squares / cubes legitimately under/overflow at these scales
+        mkey = ['pga', 'pgv', 'pgd', 'f:calc_cav-series-last'][k % 4]
+    sens = LINEAR_SENSITIVE if extreme else SENSITIVE
     points = POINTS[k % len(POINTS)]
     style = ['kw', 'positional', 'kw', 'defaults' if n <= 64 and k % 12 == 7 else 'kw'][k % 4]
     if long_case:
@@ -803,11 +918,14 @@ def make_rotation_case(rng, k):
     scans = [_make_scan(rng, okind, mkey, points, k % 2 == 0 and not long_case, style)]
     # a second, cheap scan with a sign-sensitive callable so that every case carries one
     okind2 = OFFSET_KINDS[(k // 3) % len(OFFSET_KINDS)]
-    scans.append(_make_scan(rng, okind2, SENSITIVE[(k // 5) % len(SENSITIVE)],
+    scans.append(_make_scan(rng, okind2, sens[(k // 5) % len(sens)],
                             2 if long_case else (POINTS2[(k // 21) % len(POINTS2)] if n <= 64 else [5, 2, 3, 7, 1][(k // 21) % 5]),
                             k % 2 == 1 and not long_case, 'kw'))
+    if aparam is not None:      # a named ARRAY-valued attribute: one row per angle
+        scans.append(_make_scan(rng, OFFSET_KINDS[(k // 2) % len(OFFSET_KINDS)], aparam, [3, 1, 2, 5, 4][(k // 8) % 5], False,
+                                ['kw', 'positional'][(k // 3) % 2]))
     types = [['acc', 'acc'], ['sig', 'acc'], ['acc', 'sig'], ['sig', 'sig']][int(rng.integers(4))]
-    case = {'kind': 'rotation', 'ns': ns, 'we': we, 'dt': dt, 'types': types, 'forms': forms, 'same_object': bool(same_object),
+    case = {'kind': 'rotation', 'extreme': bool(extreme), 'ns': ns, 'we': we, 'dt': dt, 'types': types, 'forms': forms, 'same_object': bool(same_object),
             'twin': bool(twin), 'angles': angles, 'angle_forms': aforms, 'scans': scans, 'classes': [c1, c2], 'edge': edge}
     # a second pair of the same shape (process-wide state) and a history on the same objects
     if not long_case:
@@ -820,7 +938,7 @@ def make_rotation_case(rng, k):
         case['derived'] = {'theta1': d1, 'theta2': float(np.round(rng.uniform(-360, 360), 2)),
                            'const': float(rng.normal()) * float(np.max(np.abs(ns)) or 1.0),
                            'scan': _make_scan(rng, OFFSET_KINDS[int(rng.integers(len(OFFSET_KINDS)))],
-                                              SENSITIVE[int(rng.integers(len(SENSITIVE)))], int(rng.choice([1, 2, 3])), False, 'kw')}
+                                              sens[int(rng.integers(len(sens)))], int(rng.choice([1, 2, 3])), False, 'kw')}
     if not long_case and rng.random() < 0.5:
         n2 = [n, n, max(1, n // 2), n + int(rng.integers(1, 9))][int(rng.integers(4))]
         hf = [VEC_FORMS[int(rng.integers(len(VEC_FORMS)))] for _ in range(2)]
@@ -843,7 +961,7 @@ def _mk_sig(eqsig, v, dt, kind):
 
 
 def _scan_call(eqsig, ns, we, sc, offset):
-    m = MEASURES[sc['measure']]
+    m = measure_entry(sc['measure'])
     style = sc.get('style', 'kw')
     off = angle_obj(offset, sc.get('offset_form', 'float')) if sc.get('offset_form', 'float') != '0d' else float(offset)
     if 'parameter' in m:
@@ -895,9 +1013,35 @@ def _combine_and_relate(eqsig, ctx, case, ns, we, angles, aforms, tag):
     return res
 
 
+def _array_scan_and_relate(eqsig, ctx, case, ns_a, we_a, scn, tag, m, sc):
+    """Scan of an array-valued attribute (judged row by row by the monitor) + the half-circle relation between its rows."""
+    try:
+        d0, p0 = _scan_call(eqsig, ns_a, we_a, scn, scn['offset'])
+    except Exception as e:
+        ctx.exception('scan.array-values==attribute(combination)',
+                      dict(case, failing={'call': 'compute_rotated', 'scan': scn, 'where': tag}), e)
+        return None
+    p0a = np.asarray(p0)
+    if p0a.ndim == 2 and p0a.shape[0] >= 2:
+        sgn = -1.0 if m['parity'] == 'odd' else 1.0
+        if m['parameter'] in ('values', 'velocity', 'displacement'):
+            scl = np.broadcast_to(m['ascale'](sc, ns_a.dt, p0a), p0a.shape)[0]
+        else:       # spectra: scale = the same attribute of a record as large as the parts, |ns|+|we| (the other component
+            with attach.paused():      # leaks in with a factor cos(90 deg) ~ 6e-17, however small the row itself is)
+                ref_a = np.abs(getattr(eqsig.AccSignal(sc, ns_a.dt), m['parameter']))
+                scl = float(np.max(ref_a)) if ref_a.size else 0.0
+        ctx.check(bool(np.all(np.abs(p0a[-1] - sgn * p0a[0]) <= m['rtol'] * scl)), 'scan.half-circle-endpoints',
+                  lambda: dict(case, failing={'relation': 'last row == %+d * first row' % sgn, 'scan': scn, 'where': tag}),
+                  'compute_rotated(parameter=%r, offset=%r): the row at the last angle is not %+d x the row at the first; the '
+                  'angles are half a circle apart' % (m['parameter'], scn['offset'], sgn))
+    return d0, p0
+
+
 def _scan_and_relate(eqsig, ctx, case, ns_a, we_a, scn, tag):
-    m = MEASURES[scn['measure']]
+    m = measure_entry(scn['measure'])
     sc = np.abs(np.asarray(ns_a.values, dtype=float)) + np.abs(np.asarray(we_a.values, dtype=float))
+    if m.get('array'):
+        return _array_scan_and_relate(eqsig, ctx, case, ns_a, we_a, scn, tag, m, sc)
     scale = m['scale'](sc, ns_a.dt)
     try:
         d0, p0 = _scan_call(eqsig, ns_a, we_a, scn, scn['offset'])
@@ -1062,6 +1206,8 @@ def run_rotation_case(eqsig, ctx, case):
         try:
             o2, p2 = case['scans'][1]['offset'], min(3, case['scans'][1]['points'])
             for par, fkey in (('arias_intensity', 'f:calc_arias-series-last'), ('pgv', 'f:pgv-scalar')):
+                if case.get('extreme') and par == 'arias_intensity':
+                    continue
                 da, pa = eqsig.compute_rotated(ns_a, we_a, angle_off_ns=o2, parameter=par, points=p2)
                 db, pb = eqsig.compute_rotated(ns_a, we_a, angle_off_ns=o2, func=MEASURES[fkey]['func'], points=p2)
                 sc_t = MEASURES[fkey]['scale'](np.abs(ns_v) + np.abs(we_v if not case.get('same_object') else ns_v), dt)
@@ -1269,6 +1415,12 @@ def make_cluster_case(rng, k, extra=False):
             base[steps + n - 1] = -3.0 * (np.max(np.abs(base)) or 1.0)
         if form == 'f32':
             base = base.astype(np.float32).astype(float)
+        elif k % 8 == 3 and form not in CLUSTER_INT_FORMS and not long_case:
+            # special but valid scales; the lag search is a sum of SQUARES, so the modes with time_match stay within 1e+-140
+            lim = 250 if mode in ('samestart', 'levels') else 140
+            base, suffix = gen.special_scale(rng, base)
+            base = clamp_scale(base, 10.0 ** (-lim), 10.0 ** lim)
+            bcls = str(bcls) + suffix
     force_edge = (k % 5 == 0)      # every non-zero lag at exactly +-(steps-1)
     lags = []
     it = iter(signs)
@@ -1546,6 +1698,9 @@ def run_shard(ctx):
                          'base_class': case['base_class']})
         ctx.observe('cluster.container.%s' % case['container'])
         ctx.observe('cluster.size.%d' % len(case['values']))
+        for tag in ('-extreme-tiny', '-extreme-huge', '-extreme-range', '-ripple-on-baseline', '-counts-above-2**24'):
+            if tag in str(case['base_class']):
+                ctx.observe('cluster.special-scale%s.%s' % (tag, 'with-time_match' if any(o[0] == 'time_match' for o in case['ops']) else 'same_start-only'))
         ctx.observe('cluster.steps.%d' % case['steps'])
         run_cluster_case(eqsig, ctx, case)
         if ctx.out_of_time():
@@ -1562,6 +1717,11 @@ def run_shard(ctx):
             ctx.observe('scan.offset-kind.%s' % scn['offset_kind'])
         for f in case['forms']:
             ctx.observe('rotation.form.%s' % f)
+        if case.get('extreme'):
+            ctx.observe('rotation.extreme-scale-case')
+            for c_ in case['classes']:
+                if 'extreme' in str(c_) or 'ripple' in str(c_) or 'counts' in str(c_):
+                    ctx.observe('rotation.extreme-class.%s' % str(c_).split('/')[-1].split('-', 1)[-1])
         run_rotation_case(eqsig, ctx, case)
         if ctx.out_of_time():
             break
